@@ -12,7 +12,10 @@ GEN_UNITS = ["GenUtils"]
 COQ_TARGETS = ["Props/C03.vo", "Model/Harness.vo"]
 THEOREM_FILES = ["Props/C03.v"]
 COQ_IMPORTS = ("From Coq Require Import List ZArith Bool QArith Qcanon.\n"
-               "From PV Require Import Base.Index Np.Array Model.Sparse Model.Repr Model.Harness Model.C03Ops.\n")
+               "From PV Require Import Base.Index Np.Array Model.Sparse Model.Repr Model.Harness Model.C03Ops.\n"
+               # case indices >= 5000 are nat literals that make coqc print one warning each; the driver reads the pipe only
+               # after the process ends, so the warnings must be silenced or the shard blocks on a full pipe
+               'Set Warnings "-abstract-large-number".\n')
 RULE = ("every binary operator (+ - * / and or xor == != < <= > >=) x right-hand side kind (scalar in {-1,0,2}, dense, sparse): "
         "ALL 4^cells zero-pattern pairs on the shapes (2,2), (3,), (2,1) [quick] / additionally (2,3), (2,2,2) [thorough], values from "
         "{-2,-1,1,2,3} with forced equal pairs, stored orders of both operands drawn independently from {sorted, reversed, random}; "
@@ -288,6 +291,8 @@ TRIGGERS = {
     "eq_dense_exactly_one_zero": lambda c: c.op == "eq" and _rk(c) == "dense" and sum(1 for x in c.args["bd"] if x == 0) == 1,
     "logic_exactly_one_empty": lambda c: c.op in ("and", "or", "xor") and _rk(c) == "sparse"
                                          and (U.nnz_a(c.args) == 0) != (U.nnz_b(c.args) == 0),
+    "and_dense_zero_at_stored": lambda c: c.op == "and" and _rk(c) == "dense" and U.nnz_a(c.args) >= 2 and any(
+        y == 0 and x != 0 for x, y in zip(U.dense_of(c.args["shape"], c.args["subs"], c.args["vals"]), c.args["bd"])),
     "div_zero_scalar_empty_operand": lambda c: c.op == "div" and _rk(c) == "scalar" and c.args["c"] == 0 and U.nnz_a(c.args) == 0,
     "pairing_by_position_differs": _pair_wrong,
     "div_sparse_supports_differ_or_misaligned": _div_sparse_bad,
@@ -317,6 +322,7 @@ WITNESS_INPUTS = {
     "C03-N2": ("eq", dict(W22, subs=[[0, 1], [1, 1]], vals=[3, -1], rk="dense", bd=[0, 2, 3, -2])),
     "C03-N3": ("and", dict(W22, subs=[], vals=[], rk="sparse", bsubs=[[1, 1], [0, 0]], bvals=[3, 2])),
     "C03-N4": ("div", dict(W22, subs=[], vals=[], rk="scalar", c=0)),
+    "C03-N6": ("and", dict(W22, subs=[[0, 1], [1, 1]], vals=[3, 3], rk="dense", bd=[0, 0, 3, 0])),
     "C03-N5": ("div", dict(W22, subs=[[1, 1], [0, 0]], vals=[3, 2], rk="dense", bd=[1, 0, 2, 3])),
 }
 WITNESSES = {k: _witness(*v) for k, v in WITNESS_INPUTS.items()}
